@@ -647,6 +647,18 @@ impl Planner {
         // Plan the input operator
         let (input_op, input_columns) = self.plan_operator(&ret.input)?;
 
+        // RETURN DISTINCT: duplicates are removed from the projected rows
+        let finish = |operator: Box<dyn Operator>, columns: Vec<String>| {
+            if ret.distinct {
+                let output_schema = self.derive_schema_from_columns(&columns);
+                let distinct: Box<dyn Operator> =
+                    Box::new(DistinctOperator::new(operator, output_schema));
+                (distinct, columns)
+            } else {
+                (operator, columns)
+            }
+        };
+
         // Build variable to column index mapping
         let variable_columns: HashMap<String, usize> = input_columns
             .iter()
@@ -790,7 +802,7 @@ impl Planner {
                 Arc::clone(&self.store),
             ));
 
-            Ok((operator, columns))
+            Ok(finish(operator, columns))
         } else {
             // Simple case: just return variables
             // Re-order columns to match return items if needed
@@ -815,10 +827,10 @@ impl Planner {
                     .all(|(i, p)| matches!(p, ProjectExpr::Column(c) if *c == i))
             {
                 // No reordering needed
-                Ok((input_op, columns))
+                Ok(finish(input_op, columns))
             } else {
                 let operator = Box::new(ProjectOperator::new(input_op, projections, output_types));
-                Ok((operator, columns))
+                Ok(finish(operator, columns))
             }
         }
     }
